@@ -10,6 +10,10 @@ from .common import FIELD, MESH, REGION
 from .c01 import each, _single_return
 
 FLOOR = 20
+ANCHORS = [
+    'field.Field.to_xarray',
+    'field.Field.from_xarray',
+]   # functions whose code the property is anchored in (mutation analysis, evidence)
 
 
 def run(chk):
